@@ -20,6 +20,8 @@ def r1_liveness(ctx):
     an = intervals.Analysis(p)
     reach = p.reachable_from([VERIFY], stop=lambda k: k not in p.funcs or p.funcs[k].crate in ("examples", "winter_prover"))
     read = {}
+    sites = {}
+    ctx.c04_sites = sites
     for k in reach:
         f = p.funcs.get(k)
         if f is None or f.raw.get("impl_trait") in SKIP_TRAITS or f.crate == "examples":
@@ -53,6 +55,7 @@ def r1_liveness(ctx):
                                 if not [u for u in f.uses(tgt)] and tgt != 0:
                                     continue
                             read.setdefault((owner, name), k)
+                            sites.setdefault((owner, name), []).append((k, bi))
     n = 0
     for adt_key in STRUCTS:
         adt = p.adts.get(adt_key)
@@ -145,7 +148,9 @@ def r3_lengths(ctx):
                "expected %d has_more_bytes -> Err checks, found %d" % (want, n), f)
     # the number of decoded query rows is tied to the number of drawn positions: rows are hashed
     # into the leaf list of verify_many, whose root reconstruction rejects a different leaf count
-    from .c19 import leaf_count
+    from .c19 import leaf_count, nodes_consumed
+    nc, nhow = nodes_consumed(p)
+    ctx.ob("R3", "opening-nodes-all-consumed", nc, nhow, p.fn("winter_crypto::merkle::proofs::BatchMerkleProof::<H>::get_root"))
     cnt, chow = leaf_count(p, "get_root")
     ctx.ob("R3", "query-rows=positions", cnt, chow, p.fn("winter_crypto::merkle::proofs::BatchMerkleProof::<H>::get_root"))
     # domain length of every opening proof is compared with the expected domain
@@ -155,12 +160,72 @@ def r3_lengths(ctx):
         ctx.ob("R3", "opening-domain-checked:%s" % key.split("::")[-2], g[0], g[1], f)
 
 
+def r4_conditional_liveness(ctx):
+    """a proof-carried option that is not absorbed into the public-coin seed is noticed only where the
+    verifier reads it: if every read sits behind a branch on another proof-carried field, then for
+    the other branch outcome the field is dead and its byte can be changed freely."""
+    p = ctx.p
+    sites = getattr(ctx, "c04_sites", None)
+    if sites is None:
+        raise AnchorLost("R1 read sites not collected")
+    an = intervals.Analysis(p)
+    te = [k for k in p.funcs if k.startswith("<winter_air::options::ProofOptions as winter_math::field::traits::ToElements<")]
+    if not te:
+        raise AnchorLost("ProofOptions::to_elements not found")
+    tf = p.funcs[te[0]]
+    absorbed = set()
+    for rb in tf.return_blocks():
+        sl = tf.backward_slice([0], at=(rb, tf.INF))
+        for pl in sl["places"]:
+            absorbed |= set(ir.place_fields(pl))
+    n = 0
+    for adt_key in ("winter_air::options::ProofOptions", "winter_air::options::PartitionOptions"):
+        adt = p.adts[adt_key]
+        for fd in adt["variants"][0]["fields"]:
+            name = fd["name"]
+            if name in absorbed or fd["ty"] in STRUCTS:
+                continue
+            n += 1
+            ss = sites.get((adt_key, name), [])
+            uncond, cond_why = False, ""
+            for k, bb in ss:
+                f = p.funcs[k]
+                blockers = []
+                for si, b in enumerate(f.blocks):
+                    t = b["t"]
+                    if b.get("cleanup") or t["k"] != "switch" or si == bb or bb not in f.reach([si]):
+                        continue
+                    dsl = f.slice_of_operand(t["d"], at=(si, f.INF)) if op_local(t["d"]) is not None else None
+                    if not dsl:
+                        continue
+                    others = {x for pl in dsl["places"] for x in ir.place_fields(pl)} - {name}
+                    owners = {an._owner_adt(f, pl[:i + 1]) for pl in dsl["places"] for i, e in enumerate(pl[1:], start=1)
+                              if isinstance(e, str) and e.startswith(".")}
+                    if not others or not (owners & set(STRUCTS)):
+                        continue
+                    for tg, lab in f.succ(si):
+                        if f.can_reach(tg, f.return_blocks(), cut_blocks=[bb]):
+                            blockers.append("%s: branch on %s at %s skips the read" % (k.split("::")[-1], sorted(others), ir.line_of(t["sp"]["at"])))
+                            break
+                if not blockers:
+                    uncond = True
+                    break
+                cond_why = blockers[0]
+            ctx.ob("R4", "field-unconditionally-live:%s.%s" % (adt_key.split("::")[-1], name), uncond,
+                   "not absorbed into the seed, but read unconditionally on the verification path" if uncond else
+                   "not absorbed into the seed and only read conditionally (%s): for the other branch outcome the field is dead and can be tampered with" % (cond_why or "no read site"),
+                   adt_key, adt["at"])
+    if n < 3:
+        raise AnchorLost("expected >= 3 option fields outside the seed (batching methods, partition options), found %d" % n)
+
+
 def run(ctx):
     ctx.rule("R1", "every field of Proof, Context, TraceInfo, ProofOptions, PartitionOptions, FriProof, FriProofLayer, Queries, OodFrame, Commitments, BatchMerkleProof is read in a function reachable from verify (not merely moved and dropped)", 35)
     ctx.rule("R2", "no parsed integer is narrowed before its sink unless bounded on every construction path of its owner", 2)
-    ctx.rule("R3", "collections consumed one by one have their length compared with the count the options imply; inner blobs are parsed to exact length; opening-proof domains are compared with the expected domain; the row count of a query table is tied to the position count by the leaf-count check of get_root", 11)
+    ctx.rule("R3", "collections consumed one by one have their length compared with the count the options imply; inner blobs are parsed to exact length; opening-proof domains are compared with the expected domain; the row count of a query table is tied to the position count by the leaf-count check of get_root; every node of an opening proof is consumed", 12)
     ctx.guard("R1", r1_liveness)
     ctx.guard("R2", r2_narrowing)
     ctx.guard("R3", r3_lengths)
+    ctx.rule("R4", "every proof-carried option outside the public-coin seed has a read on the verification path that is not behind a branch on another proof-carried field", 3)
+    ctx.guard("R4", r4_conditional_liveness)
     ctx.assume("that the remaining checks reject every altered *value* is behavioural (C02/C03/C09 decide that the checks are in place, not their strength)")
-    ctx.note("known value-level malleability not decided here: surplus digests at the end of a BatchMerkleProof node vector are ignored by get_root")
